@@ -101,7 +101,8 @@ def replay_fn(ctx, prop, fname, st):
     if base is not None:
         return 'other-property'      # disagreement without annotations: C01/C02's business
     bad = None
-    base_packed = packed_slots(init, env, prog, None) if st['status'] == 'running' else None
+    # serialization clause: PACK bytes of the final stack must not depend on annotations (families whose values are pairs / combs)
+    base_packed = packed_slots(init, env, prog, None) if (st['status'] == 'running' and fname in ('comb', 'annot_keys', 'adt')) else None
     for scheme in SCHEMES:
         if base_packed is not None:
             ann_packed = packed_slots(init, env, prog, scheme)
